@@ -91,6 +91,17 @@ theorem csv_file_roundtrip (f : CsvFmt) (geo : Bool) (pf : List Tok) (h naf : Na
       (∀ ra rest, rows = ra :: rest → readCsv f pf 1 text = .ok (rest.map (fun ra => expRow f geo pf ra.1))) :=
   TV.TextIO.csv_file_roundtrip f geo pf h naf rows hv hsep hnl htime hrows
 
+/-- reader side of the header option: a file made of a first line, any number of comment lines (`#…`) and
+then the data lines is read with `h=1` as exactly the observations. This is the shape the header block of
+`writeToFile` has (`#srid: …`, `#ref point: …`, `#E;N;…`), i.e. what a writer repaired to honour `h=1` produces. -/
+theorem csv_header_block_roundtrip (f : CsvFmt) (geo : Bool) (pf : List Tok) (naf : Nat) (rows : List (Row × List Int))
+    (hv : ValidIds f) (hsep : numChar f.sep = false) (hnl : f.sep ≠ '\n') (htime : f.idT ≠ -1 → TimeOK pf f.sep)
+    (hrows : ∀ ra ∈ rows, RowOK f geo pf ra.1)
+    (first : Str) (cm : List Str) (hfirst : '\n' ∉ first) (hcm : ∀ l ∈ cm, '\n' ∉ l ∧ ∃ cs, strip l = '#' :: cs) :
+    readCsv f pf 1 (((first :: cm ++ rows.map (fun ra => rowLine f geo pf ra.1 ra.2)).map (· ++ ['\n'])).flatten)
+      = .ok (rows.map (fun ra => expRow f geo pf ra.1)) :=
+  TV.TextIO.csv_header_block_roundtrip f geo pf naf rows hv hsep hnl htime hrows first cm hfirst hcm
+
 /-- **T3 `time_roundtrip`**: for a format made of distinct full-width codes (`2D 2M 4Y 2h 2m 2s 3z`,
 `Lossless`) and arbitrary literal characters, and a stamp whose fields fit their widths (`Fits`: four-digit
 year, …, which every well-formed `ObsTime` before year 10000 satisfies), reading what `__str__` printed
@@ -104,6 +115,44 @@ identical to the second") -/
 theorem time_roundtrip_full (f : List Tok) (h : Lossless f) (hfull : FullDate f) (t : Stamp) (ht : Fits t) :
     ∃ t', readTimestamp f (printTime f t) = some t' ∧ t'.d = t.d :=
   ⟨_, time_roundtrip f h t ht, project_full f t hfull⟩
+
+/-- T3 with trailing text: what follows the printed stamp (the zone letter `Z` of a GPX `<time>`) is ignored -/
+theorem time_roundtrip_suffix (f : List Tok) (h : Lossless f) (t : Stamp) (ht : Fits t) (suf : Str) :
+    readTimestamp f (printTime f t ++ suf) = some (project f t) := by
+  rw [readTimestamp_printTime_suffix f h t ht suf, applyCodes_epoch f t h.1]
+
+/-- **GPX, partial** `gpx_point_partial`: the three numbers the GPX writer prints for a track point
+(`{:3.8f}` in the `lat`/`lon` attributes and in `<ele>`) are read back by `float()` as the printed decimals,
+and the `<time>` text `4Y-2M-2DT2h:2m:2s` + `Z` is read back, with the ISO read format, as the same calendar
+fields (milliseconds 0). MISSING: the line scanner of `__readFromGpx` (which lines open and close tracks and
+points, `split('"')` of the attributes) is not covered by a theorem; it is modelled (`gpxLine`, `readGpx`) and
+tied to the code by the correspondence check only. -/
+theorem gpx_point_partial (r : GRow) (ht : Fits r.t) :
+    parseDec? (fixedWS 3 8 r.x) = some (r.x.toInt, 8) ∧ parseDec? (fixedWS 3 8 r.y) = some (r.y.toInt, 8) ∧
+    parseDec? (fixedWS 3 8 r.z) = some (r.z.toInt, 8) ∧
+    readTimestamp isoFmt (printTime isoFmt r.t ++ ['Z']) = some ⟨r.t.d, 0⟩ := by
+  refine ⟨parseDec_fixedWS _ _ _, parseDec_fixedWS _ _ _, parseDec_fixedWS _ _ _, ?_⟩
+  have hl : Lossless isoFmt := by decide
+  rw [time_roundtrip_suffix isoFmt hl r.t ht]
+  have h1 : hasL isoFmt 'Y' = true := by decide
+  have h2 : hasL isoFmt 'M' = true := by decide
+  have h3 : hasL isoFmt 'D' = true := by decide
+  have h4 : hasL isoFmt 'h' = true := by decide
+  have h5 : hasL isoFmt 'm' = true := by decide
+  have h6 : hasL isoFmt 's' = true := by decide
+  have h7 : hasL isoFmt 'z' = false := by decide
+  simp [project, h1, h2, h3, h4, h5, h6, h7]
+
+/-- **written precision, partial** `written_precision_partial`: on the decimal lattice (values `±m / 10^d`)
+what the CSV writer prints for a coordinate and what `float()` reads from it denote the same number, and
+`str(float)` / `float()` likewise for WKT. MISSING: Python's `format` applied to an arbitrary double (the
+correctly rounded choice of `m`, hence "within half a unit of the last printed decimal") and `float()`'s
+correctly rounded conversion are library behaviour; they are exercised by the `fix` stream and by the
+byte-for-byte comparison of every written file, not proved. -/
+theorem written_precision_partial (w d : Nat) (v : SNum) (n : Int) :
+    parseDec? (renderFixedS w d v) = some (v.toInt, d) ∧
+    (∃ m k, parseDec? (reprDec d n) = some (m, k) ∧ k ≤ d ∧ m * 10 ^ (d - k) = n) :=
+  ⟨fixed_roundtrip w d v, _, _, parseDec_reprDec d n, reprVal_value d n⟩
 
 /-- well-formed stamps before year 10000 fit -/
 theorem fits_of_wf (t : Stamp) (h : WFs t) (hy : t.d.year < 10000) : Fits t := by
